@@ -65,7 +65,7 @@ def build(ctx, chain=False, discrete=False):
         cash0 = 1e7
         userate = False
     else:
-        pool = [ETF("A"), ETF("B"), gen.SpotMult("L10", 10.0), ES(2021, 3), ZN(2021, 3), gen.UserFuture("F1", 5, 0.3)]
+        pool = [ETF("A"), ETF("B"), gen.SpotMult("L10", 10.0), ES(2021, 3), ZN(2021, 3), gen.UserFuture("F1", 5, 0.3), gen.UserSpot("U3", 3.0), gen.AssetFuture("AF", 20, 0.2)]
         rng.shuffle(pool)
         cs = pool[: rng.randint(1, 3)]
         n = rng.randint(3, 12)
